@@ -112,11 +112,12 @@ def rand_relay_beh(rng, tin, allow_skip=True, slow=True):
 
 
 def gen_general(rng, seed, family=None, faults=('loss', 'kill', 'clean_restart', 'stall', 'slowlink', 'late'), nframes=None, sync_required=None,
-                allow_skip_in_rejoin=True, ephemerals=True, hidden=False, knobs=True):
+                allow_skip_in_rejoin=True, ephemerals=True, hidden=False, knobs=True, tcp=None):
     """The C01/C02 workload: any topology family with any behaviour; fault classes as listed."""
     family = family or rng.choice(['chain', 'tee', 'tee_rejoin', 'tee_rejoin', 'tee_rejoin3', 'join', 'diamond_chain'])
     nframes = nframes or rng.randint(10, 24)
-    p = Pipe()
+    draw_tcp = rng.random() < 0.2
+    p = Pipe(tcp=(knobs and draw_tcp) if tcp is None else tcp)
     cfgx = {}
     if hidden:
         cfgx = {'outputs_filter': rng.random() < 0.6, 'outputs_metrics': rng.random() < 0.5}
